@@ -13,6 +13,12 @@ next transfer.  Theorems about `CanopenModel/Sdo/BlockDown.lean` and `BlockUp.le
 (c) `BD.block_download_ok_exact_partial` + `BD.dup_ack_counterexample`: a block download that returns
     normally has committed exactly the payload when the disturbance is a lost response, an abort
     frame or a wrong command specifier (any response index); FALSE for a duplicated acknowledge.
+    `BU.block_upload_lost_ok_exact`, `BU.block_upload_lost_segment_repaired` (repaired
+    re-synchronisation of `BlockUploadStream`): whichever response of a block upload is lost, a
+    normal return yields exactly the server's value, and a lost segment is repaired.  Late and
+    duplicated segments: closed instances `BU.late_dup_instances` (repaired, or an SDO error where
+    the surplus frame lands in front of the end response) and the protocol-inherent
+    `BU.deferred_dup_counterexample`; every position is exercised by the `bdist up` operations.
 (d) `BD.between_idle`, `BU.between_idle`, `BD.next_block_download_clean` (+ `C07.next_transfer_clean`
     for a following expedited / segmented transfer, which assumes nothing about queue or server phase).
 -/
@@ -21,6 +27,7 @@ import CanopenModel.Sdo.BlockUp
 import CanopenProofs.Lemmas.BlockDown
 import CanopenProofs.Lemmas.BlockUp
 import CanopenProofs.Lemmas.BlockDist
+import CanopenProofs.Lemmas.BlockUpLoss
 
 namespace Canopen.C07
 open Canopen Canopen.Crc Canopen.Gen.SdoBlock
@@ -407,6 +414,86 @@ theorem request_abort_raises (E : Env) (s : Sys) (req : Bytes) (a b d code : Nat
   exact ⟨_, rfl, rfl⟩
 
 theorem between_idle (s : Sys) : (between s).srv.phase = .idle ∧ (between s).pending = [] := ⟨rfl, rfl⟩
+
+/-- the lost-response disturbance of C07 as a channel -/
+def lostPar (E : Env) (at_ : Nat) (crcReq : Bool) (idx sub : Nat) : C13.Par :=
+  { cfg := E.cfg, chan := (C13.distChan at_ Kind.lost), g := (C13.trueG E.cfg), crcReq := crcReq, idx := idx,
+    sub := sub }
+
+theorem lostPar_lossOnly (E : Env) (at_ : Nat) (crcReq : Bool) (idx sub : Nat) :
+    C13.LossOnly (lostPar E at_ crcReq idx sub) := by
+  intro n f
+  simp only [lostPar, C13.distChan, Canopen.Sdo.BlockDown.distort]
+  split
+  · exact Or.inl rfl
+  · exact Or.inr rfl
+
+/-- **(c) block upload, lost response**: conformant server holding any value (1 ≤ length < 2^32),
+    CRC negotiated or not, anything sitting in the client's queue beforehand, whichever of the
+    server's responses (index `at_`: initiate response, any segment, end response) is lost — a
+    block upload that returns normally returns exactly the server's value. -/
+theorem block_upload_lost_ok_exact (E : Env) (at_ : Nat) (hd : E.dist = some (at_, .lost))
+    (hx : E.cfg.crcXor = 0) (he : E.cfg.endB0 = none) (h1 : 1 ≤ E.cfg.data.length)
+    (h2 : E.cfg.data.length < 2 ^ 32) (fuel idx sub : Nat) (crcReq : Bool) (q : List Bytes) (v : Bytes)
+    (hok : (blockUploadFrom E fuel (C13.startQ q) idx sub crcReq).2 = .ok v) : v = E.cfg.data :=
+  C13.upload_loss_safe E (lostPar E at_ crcReq idx sub) (C13.deliv_dist E at_ .lost hd C13.spot_lost)
+    (lostPar_lossOnly E at_ crcReq idx sub) hx he h1 h2 fuel q v hok
+
+/-- **(c) block upload, a lost segment is repaired**: the response lost is a segment frame
+    (1 ≤ `at_` ≤ number of segments) — the upload completes with exactly the server's value. -/
+theorem block_upload_lost_segment_repaired (E : Env) (at_ : Nat) (hd : E.dist = some (at_, .lost))
+    (hx : E.cfg.crcXor = 0) (he : E.cfg.endB0 = none) (h1 : 1 ≤ E.cfg.data.length)
+    (h2 : E.cfg.data.length < 2 ^ 32) (hat1 : 1 ≤ at_) (hat : at_ ≤ Spec.BlockUp.nseg E.cfg)
+    (fuel idx sub : Nat) (crcReq : Bool) (hf : Spec.BlockUp.nseg E.cfg + 1 ≤ fuel) (q : List Bytes) :
+    (blockUploadFrom E fuel (C13.startQ q) idx sub crcReq).2 = .ok E.cfg.data :=
+  C13.upload_single_loss E (lostPar E at_ crcReq idx sub) (C13.deliv_dist E at_ .lost hd C13.spot_lost)
+    (lostPar_lossOnly E at_ crcReq idx sub) hx he h1 h2 at_ hat1 hat
+    (fun n f hn => by simp [lostPar, C13.distChan, hn]) fuel hf q
+
+/-- non-vacuity: 30 bytes, no CRC, the fourth segment lost, a stale frame queued beforehand -/
+def lostDemo : Env :=
+  { cfg := { data := List.range' 1 30, crcCapable := false, sizeInd := true },
+    chan := (fun _ f => some f), dist := some (4, .lost) }
+
+example : (blockUploadFrom lostDemo 100 (C13.startQ [[0x60, 0, 0x20, 3, 0, 0, 0, 0]]) 0x2000 3 false).2 =
+    .ok (List.range' 1 30) := by
+  decide +kernel
+
+/-- 30 bytes (5 segments), no CRC, one response hit by `k` -/
+def distDemo (n at_ : Nat) (k : Kind) : Env :=
+  { cfg := { data := List.range' 1 n, crcCapable := false, sizeInd := true },
+    chan := (fun _ f => some f), dist := some (at_, k) }
+
+/-- **Late and duplicated segments, closed instances** (not proved in general; every position is
+    exercised by the `bdist up` operations): a segment that arrives late (with the repetition the
+    client asked for) or twice is repaired — first, middle and last segment of the value — except
+    where the surplus frame lands in front of the end response, which fails loudly
+    (SdoCommunicationError after abort 0x05040001): a duplicate of the last segment, a late only
+    segment, a duplicate delivered with the client's next frame. -/
+theorem late_dup_instances :
+    (blockUpload (distDemo 30 1 .late) 100 0x2000 3 false).2 = .ok (List.range' 1 30) ∧
+    (blockUpload (distDemo 30 3 .late) 100 0x2000 3 false).2 = .ok (List.range' 1 30) ∧
+    (blockUpload (distDemo 30 5 .late) 100 0x2000 3 false).2 = .ok (List.range' 1 30) ∧
+    (blockUpload (distDemo 30 1 .dup) 100 0x2000 3 false).2 = .ok (List.range' 1 30) ∧
+    (blockUpload (distDemo 30 3 .dup) 100 0x2000 3 false).2 = .ok (List.range' 1 30) ∧
+    (blockUpload (distDemo 30 5 .dup) 100 0x2000 3 false).2 = .err ∧
+    (blockUpload (distDemo 30 5 .dup) 100 0x2000 3 false).1.raised = some .comm ∧
+    (blockUpload (distDemo 5 1 .late) 100 0x2000 3 false).2 = .err ∧
+    (blockUpload (distDemo 5 1 .late) 100 0x2000 3 false).1.raised = some .comm ∧
+    (blockUpload (distDemo 30 3 .dupDeferred) 100 0x2000 3 false).2 = .err ∧
+    (blockUpload (distDemo 30 3 .dupDeferred) 100 0x2000 3 false).1.raised = some .comm := by
+  decide +kernel
+
+/-- **Inherent in the protocol, not a defect of the client**: sequence numbers restart at 1 with
+    every sub-block, so a duplicate of the FIRST segment of a sub-block that arrives only after that
+    sub-block has been acknowledged (here: 900 bytes = 127 + 2 segments, no CRC, the duplicate of
+    segment 1 delivered with the client's acknowledge) cannot be told from the first segment of
+    the next sub-block: bytes 890 … 896 of the value returned are bytes 1 … 7.  With CRC
+    negotiated the transfer fails (`C13.crc_guard`). -/
+theorem deferred_dup_counterexample :
+    (blockUpload (distDemo 900 1 .dupDeferred) 200 0x2000 3 false).2 =
+      .ok (List.range' 1 889 ++ List.range' 1 7 ++ List.range' 897 4) := by
+  decide +kernel
 
 end BU
 end Canopen.C07
